@@ -66,6 +66,8 @@ type Config struct {
 	// Returning false abandons the path (assumption contradicts facts).
 	AfterEvent func(c *Ctx, ev *Event) bool
 	Monitors   []Monitor
+	// LoadEvents delivers a "load" event for every read of non-local memory.
+	LoadEvents bool
 	// KeepFacts: when false (default), facts about values no longer referenced are pruned.
 	Debug      bool
 	DebugBlock int
